@@ -273,6 +273,22 @@ def canon_notifs(line, notifs):
     return sorted(g.items(), key=repr)
 
 
+def instances_view(w, static):
+    """allInstances() of every class, unfiltered and filtered by each resource, the way each rendering spells it"""
+    out = []
+    for cid, ec in enumerate(w.classes):
+        who = ec.python_class if static else ec
+        rows = []
+        for rs in [None] + [(r,) for r in w.res]:
+            try:
+                got = who.allInstances(resources=rs) if rs else who.allInstances()
+                rows.append(sorted(i for i in (w.oid(x) for x in got) if i is not None))
+            except Exception as e:
+                rows.append('raised ' + type(e).__name__)
+        out.append(rows)
+    return out
+
+
 def queries(w):
     out = []
     for i in range(len(w.objs)):
@@ -352,6 +368,10 @@ def history_case(ctx, h, nops, tmp, model_in, expect):
         else:
             if queries(w2) != queries(w):
                 ctx.violate({'clause': 'views-differ'}, f'fragments / contents / roots differ between dynamic and static ({style})', rep)
+            # (allInstances scans every object the process ever made: sampled)
+            iv_d, iv_s = (instances_view(w, False), instances_view(w2, True)) if h % 5 == 0 else (None, None)
+            if iv_d != iv_s:
+                ctx.violate({'clause': 'allInstances-differ'}, f'allInstances (all, and per resource) differ: dynamic {iv_d} vs static ({style}) {iv_s}', rep)
     # both renderings against the Lean model driven by the description
     model_in.append('reset'); expect.append(None)
     for l in w.mm_lines():
@@ -432,7 +452,7 @@ def run(ctx):
                 'description and vs each other, and vs the Lean model of _promote (`driver static`); abstract instantiation; '
                 '(b) generated histories (<= 25/40 public mutations, operands chosen on the live state) run on the dynamic rendering and '
                 'replayed on both static renderings: result or exception of every call, full state after every call, notifications per '
-                '(notifier, feature), fragments / contents / roots at the end; the static rendering also vs the Lean Store model driven '
+                '(notifier, feature), fragments / contents / roots and allInstances (unfiltered and per resource) at the end; the static rendering also vs the Lean Store model driven '
                 'by the description; (c) XMI and JSON documents written by either side loaded by the other: canonical isomorphism. '
                 'non-trivial & distinct = classes with features or methods described + histories run on all renderings')
     describe_pass(ctx)
